@@ -2,5 +2,5 @@ INIT Init
 NEXT Next
 CONSTANTS
   Depth = 2
-  Shapes = {0, 1, 2, 3, 4, 5, 6, 7, 8}
+  Shapes = {0, 1, 2, 3, 4, 5, 6, 7}
 INVARIANTS DesignOK EmitVec
